@@ -17,6 +17,15 @@ Bounded exhaustive enumeration on the real `Table` API (depth-1 space from sever
                    over {None, -1, 0, 1, last-1, last, last+1} per axis (complete product, keyword and
                    positional calling convention, cells and values_only).
 
+  history phase    (both tiers) on the fresh and the reloaded 3x2 table, for P beyond the rows, beyond the
+                   columns and beyond both: op(P in notation n1) -> one structural edit out of 14 (delete /
+                   add rows / columns at the end or the front, one or two, both axes; moving the bounds back
+                   across P or not) -> op(P in notation n2), for all ordered pairs (n1, n2) of {(row, col),
+                   'A1', '$A$1'} and op in {write, set_cell_style, set_cell_formatting, set_cell_border,
+                   write-then-cell, cell}. Judged step by step (outcome class, exact dimensions after every
+                   step, effect on exactly the addressed cell, every other cell unchanged / new cells empty)
+                   and against a twin table that receives the same history in (row, col) form only.
+
 Oracle = a reference grid. The table is filled with distinct numbers v(i,j) and verified through
 `rows()` (no coordinates involved). The observation of every cell (class, value, formatted value,
 style name/bold/size, four border sides) is compared with a reference observation taken from a twin
@@ -513,6 +522,8 @@ def eval_case(case):
     SEED = int(case[-1])
     if case[0] == "iter":
         return eval_iter(case)
+    if case[0] == "hist":
+        return eval_hist(case)
     _, kind, r, c, method, only, _ = case
     fails, stats = [], {"calls": 0, "outcomes": []}
     base = None
@@ -643,6 +654,204 @@ def eval_iter(case, shared=None):
 
 
 # ---------------------------------------------------------------------------------------------
+# history cases: op(P in notation n1) -> structural edit -> op(P in notation n2)
+# ---------------------------------------------------------------------------------------------
+HIST_KINDS = ["3x2", "3x2-reloaded"]
+HIST_NOTATIONS = ["rc", "A1", "$A$1"]
+HIST_METHODS = ["write", "set_cell_style", "set_cell_formatting", "set_cell_border", "write>cell", "cell"]
+HIST_POS = {"row-beyond": lambda n, m: (n + 1, 0), "col-beyond": lambda n, m: (0, m + 1), "both-beyond": lambda n, m: (n + 1, m + 1)}
+# every edit is a list of (method, kwargs, rows delta, columns delta); deletions without start remove from the end
+EDITS = {
+    "none": [],
+    "delete_row": [("delete_row", {}, -1, 0)],
+    "delete_row2": [("delete_row", {"num_rows": 2}, -2, 0)],
+    "delete_first_row": [("delete_row", {"start_row": 0}, -1, 0)],
+    "delete_column": [("delete_column", {}, 0, -1)],
+    "delete_column2": [("delete_column", {"num_cols": 2}, 0, -2)],
+    "delete_first_column": [("delete_column", {"start_col": 0}, 0, -1)],
+    "delete_both": [("delete_row", {}, -1, 0), ("delete_column", {}, 0, -1)],
+    "delete_both2": [("delete_column", {"num_cols": 2}, 0, -2), ("delete_row", {"num_rows": 2}, -2, 0)],
+    "add_row": [("add_row", {}, 1, 0)],
+    "add_column": [("add_column", {}, 0, 1)],
+    "add_row2": [("add_row", {"num_rows": 2}, 2, 0)],
+    "add_column2": [("add_column", {"num_cols": 2}, 0, 2)],
+    "add_both2": [("add_row", {"num_rows": 2}, 2, 0), ("add_column", {"num_cols": 2}, 0, 2)],
+}
+
+
+def hist_pos_args(r, c, notation):
+    for label, pos in notations(r, c):
+        if label == notation:
+            return pos
+    raise ValueError(notation)
+
+
+def hist_invoke(method, tb, pos, style, r, c, value):
+    if method == "write":
+        return tb.write(*pos, value)
+    return invoke(method, tb, pos, style, r, c)
+
+
+def grid_obs(tb):
+    return [[cell_obs(x) for x in row] for row in tb.rows()]
+
+
+def _guarded(fn, row_budget, col_budget):
+    _GUARD.update(on=True, rows=0, cols=0, row_budget=row_budget, col_budget=col_budget)
+    try:
+        return ("ok",), fn()
+    except _Runaway as e:
+        return ("runaway", str(e)), None
+    except Exception as e:  # noqa: BLE001
+        return ("exc", type(e).__name__), None
+    finally:
+        _GUARD["on"] = False
+
+
+def run_history(kind, method, pkind, edit, n1, n2):
+    """One three-step history on a freshly built table.
+    -> (signature for the twin comparison, problems [(pattern, text)]) or (None, []) if the edit is not enabled."""
+    n, m, _ = KINDS[kind]
+    r, c = HIST_POS[pkind](n, m)
+    m1, m2 = ("write", "cell") if method == "write>cell" else (method, method)
+    doc, tb, style = build(kind)
+    problems = []
+    what = f"{kind}: {m1}{hist_pos_args(r, c, n1)!r} -> {edit} -> {m2}{hist_pos_args(r, c, n2)!r}"
+
+    def step_dims(label, want_options):
+        got = (tb.num_rows, tb.num_cols)
+        rows = tb.rows()
+        if got not in want_options or len(rows) != got[0] or any(len(x) != got[1] for x in rows):
+            problems.append(("wrong-dims", f"{what}: after {label} the table is {got} (stored rows {[len(x) for x in rows][:8]}), expected {' or '.join(map(str, want_options))}"))
+            return False
+        return True
+
+    def expected_outcomes(meth, d):
+        """-> (allowed outcomes, allowed dims) for a call at (r, c) on a table of size d."""
+        grown = (max(d[0], r + 1), max(d[1], c + 1))
+        if meth == "cell":
+            return ([("ok",)] if r < d[0] and c < d[1] else [("exc", "IndexError")]), [d]
+        if meth == "set_cell_formatting":  # the target is an empty cell: the cell-type rule may refuse it
+            return [("ok",), ("exc", "TypeError")], [grown, d]
+        return [("ok",)], [grown]
+
+    # step 1 ---------------------------------------------------------------------------------------
+    d0 = (n, m)
+    out1, _ = _guarded(lambda: hist_invoke(m1, tb, hist_pos_args(r, c, n1), style, r, c, "first"), r + 9, c + 9)
+    ok_out, ok_dims = expected_outcomes(m1, d0)
+    if out1 not in ok_out:
+        problems.append(("first-call-failed", f"{what}: first call gave {out1}, expected {ok_out}"))
+    if out1 == ("ok",) and m1 != "cell":
+        ok_dims = ok_dims[:1]
+    if not step_dims("the first call", ok_dims):
+        return (out1, None, (tb.num_rows, tb.num_cols)), problems
+    d1 = (tb.num_rows, tb.num_cols)
+    # step 2: structural edit ----------------------------------------------------------------------
+    de = d1
+    for _, _, dr, dc in EDITS[edit]:
+        de = (de[0] + dr, de[1] + dc)
+        if de[0] < 1 or de[1] < 1:
+            return None, []  # edit not enabled in this state (would empty the table)
+    for name, kw, _, _ in EDITS[edit]:
+        oute, _ = _guarded(lambda name=name, kw=kw: getattr(tb, name)(**kw), 9, 9)
+        if oute != ("ok",):
+            problems.append(("edit-failed", f"{what}: {name}({kw}) gave {oute}"))
+            return (out1, oute, (tb.num_rows, tb.num_cols)), problems
+    if not step_dims(f"the edit {edit}", [de]):
+        return (out1, "edit", (tb.num_rows, tb.num_cols)), problems
+    pre = grid_obs(tb)
+    pre_cells = [list(x) for x in tb.rows()]
+    # step 3 ---------------------------------------------------------------------------------------
+    out2, ret = _guarded(lambda: hist_invoke(m2, tb, hist_pos_args(r, c, n2), style, r, c, write_value()),
+                         max(0, r + 1 - de[0]) + 8, max(0, c + 1 - de[1]) + 8)
+    ok_out, ok_dims = expected_outcomes(m2, de)
+    if out2 not in ok_out:
+        problems.append(("second-call-failed" if out2[0] != "runaway" else "runaway-growth",
+                         f"{what}: second call on the {de[0]}x{de[1]} table gave {out2}, expected {ok_out}"))
+    if out2 == ("ok",) and m2 != "cell":
+        ok_dims = ok_dims[:1]
+    dims_ok = step_dims("the second call", ok_dims)
+    d2 = (tb.num_rows, tb.num_cols)
+    post = grid_obs(tb) if dims_ok else None
+    if dims_ok:
+        rows = tb.rows()
+        allowed = set()
+        if out2 == ("ok",) and m2 == "cell":
+            if ret is not pre_cells[r][c]:
+                problems.append(("wrong-cell", f"{what}: the read did not return rows()[{r}][{c}]"))
+        elif out2 == ("ok",):
+            allowed.add((r, c))
+            t = post[r][c]
+            if m2 == "write":
+                v = write_value()
+                if _try(lambda: rows[r][c].value) != v:
+                    problems.append(("target-not-updated", f"{what}: rows()[{r}][{c}] holds {t[1]}, expected {v!r}"))
+            elif m2 == "set_cell_style":
+                if t[3] != (style.name, style.bold, style.font_size):
+                    problems.append(("target-not-updated", f"{what}: style of rows()[{r}][{c}] is {t[3]}"))
+            elif m2 == "set_cell_border":
+                side = border_side(r, c)
+                if not isinstance(t[4], tuple) or t[4][SIDES.index(side)] != str(the_border()):
+                    problems.append(("target-not-updated", f"{what}: {side} border of rows()[{r}][{c}] is {t[4]}"))
+                _, di, dj = OPPOSITE[side]
+                allowed.add((r + di, c + dj))
+        for i, row in enumerate(post):
+            for j, got in enumerate(row):
+                if (i, j) in allowed:
+                    continue
+                if i < de[0] and j < de[1]:
+                    if got != pre[i][j]:
+                        problems.append(("wrong-cell", f"{what}: cell [{i},{j}] changed from {pre[i][j]} to {got}"))
+                elif (got[0], got[1]) != ("EmptyCell", "None") or got[4] != ("None",) * 4:
+                    problems.append(("wrong-cell", f"{what}: new cell [{i},{j}] is {got}, expected an empty cell"))
+    return (out1, out2, d1, de, d2, post), problems[:6]
+
+
+_TWIN = {}
+
+
+def eval_hist(case):
+    """case = ["hist", kind, method, position kind, edit, n1, n2, seed]."""
+    _, kind, method, pkind, edit, n1, n2, _ = case
+    fails, stats = [], {"calls": 0, "outcomes": []}
+    ident = {"mechanism": method, "class": f"history/{pkind}/{edit}", "notation": f"{n1}>{n2}", "pattern": None}
+    try:
+        sig, problems = run_history(kind, method, pkind, edit, n1, n2)
+        if sig is None:
+            stats["outcomes"].append("history|edit-not-enabled")
+            return fails, stats
+        stats["calls"] = 2
+        key = (kind, method, pkind, edit, SEED)
+        if (n1, n2) == ("rc", "rc"):
+            twin = sig
+        else:
+            if key not in _TWIN:
+                _TWIN.clear()
+                _TWIN[key] = run_history(kind, method, pkind, edit, "rc", "rc")[0]
+            twin = _TWIN[key]
+        stats["outcomes"].append(f"history|{method}|{edit}|{'/'.join(map(str, sig[1][:2])) if isinstance(sig[1], tuple) else sig[1]}"
+                                 + ("|regrown" if len(sig) > 4 and sig[4] != sig[3] else ""))
+        for pattern, text in problems:
+            fails.append((dict(ident, pattern=pattern), text))
+        if sig != twin:
+            diff = next((f"{name}: {a} vs {b}" for name, a, b in zip(("first outcome", "second outcome", "dims after first call", "dims after edit", "final dims"), sig, twin) if a != b),
+                        "cell observations differ")
+            fails.append((dict(ident, pattern="differs-from-rowcol-twin"),
+                          f"{kind}: history {method} at {HIST_POS[pkind](*KINDS[kind][:2])} / {edit} in notations {n1}>{n2} differs from the same history in (row, col) form: {diff}"))
+    except SetupError as e:
+        fails.append(({"mechanism": "initial-state", "class": kind, "notation": "rc", "pattern": "setup-failed"}, str(e)))
+    return fails, stats
+
+
+def hist_cases(kind, method):
+    for pkind in HIST_POS:
+        for edit in EDITS:
+            for n1 in HIST_NOTATIONS:
+                for n2 in HIST_NOTATIONS:
+                    yield ("hist", kind, method, pkind, edit, n1, n2)
+
+
+# ---------------------------------------------------------------------------------------------
 # enumeration
 # ---------------------------------------------------------------------------------------------
 def pos_tasks(tier):
@@ -688,6 +897,20 @@ def work(task):
             part.count("position_calls", stats["calls"])
             part.count(f"calls_{method}", stats["calls"])
         part.sample({"phase": "position", "case": ["pos", kind, r, cols[0], method, None, SEED]})
+    elif task[0] == "hist":
+        _, kind, method, SEED = task
+        first = None
+        for base in hist_cases(kind, method):
+            case = (*base, SEED)
+            first = first or case
+            fails, stats = eval_case(case)
+            _record(part, case, fails, stats)
+            if stats["calls"]:
+                part.count("histories")
+                part.count("history_calls", stats["calls"])
+            else:
+                part.count("histories_not_enabled")
+        part.sample({"phase": "history", "case": list(first)})
     elif task[0] == "mega":
         _, case, SEED = task
         case = (*case, SEED)
@@ -744,6 +967,9 @@ def main():
         for which in ("iter_rows", "iter_cols"):
             for a in bound_alphabet(n, tier):
                 work_items.append(("iter", kind, which, [a], tier, SEED))
+    for kind in HIST_KINDS:
+        for method in HIST_METHODS:
+            work_items.append(("hist", kind, method, SEED))
     # most expensive shards first (rows 255..257 and wide growth)
     work_items.sort(key=lambda t: 0 if (t[0] == "pos" and (t[3] >= 255 or t[1] == "12x8")) else 1)
     for res in pmap(work, work_items, args.jobs):
@@ -773,6 +999,11 @@ def main():
     for which in ("iter_rows", "iter_cols"):
         run.floor(f"{which}: rectangles, zero bounds, out-of-range and inverted bounds all executed",
                   all(any(k.startswith(f"{which}|{z}|") for k in oc) for z in ("rectangle", "zero-bound", "out-of-range", "inverted")))
+    for method in HIST_METHODS:
+        run.floor(f"histories of {method}: an edit moved the bounds back across P and the second call was executed",
+                  any(k.startswith(f"history|{method}|delete_") for k in oc)
+                  and (method == "cell" or any(k.startswith(f"history|{method}|delete_") and (k.endswith("|regrown") or method == "write>cell") for k in oc)))
+    run.floor("histories: >= 2500 three-step histories executed", run.counters["histories"] >= 2500)
     if tier == "thorough":
         run.floor("10^6-row growth executed", run.counters["mega_growth_calls"] >= 8)
 
@@ -790,9 +1021,10 @@ def main():
                "class, value, formatted value and all four borders are observed on every cell")
     run.assume("new cells are compared with the cells add_row()/add_column() create (structural API as reference for 'empty')")
     cov = {
-        "distinct_nontrivial": run.counters["position_calls"] + run.counters["iterator_tuples"],
+        "distinct_nontrivial": run.counters["position_calls"] + run.counters["iterator_tuples"] + run.counters["histories"],
         "rule": "distinct (table kind, row, column, method, notation) calls, each on a freshly built table and compared cell by cell with "
-                "the reference grid, plus distinct (table, iterator, min_row, max_row, min_col, max_col) tuples (each run in 4 calling variants)",
+                "the reference grid, plus distinct (table, iterator, min_row, max_row, min_col, max_col) tuples (each run in 4 calling variants), "
+                "plus distinct three-step histories (table, method, position, structural edit, first notation, second notation)",
         "exhaustive": True,
     }
     return run.finish(cov)
